@@ -1,6 +1,122 @@
-From Coq Require Import List String Bool Arith.
+(* C06 — a variable path addresses the same variable everywhere.
+   Statements only; every proof is `exact <lemma of PathsProofs>`. *)
+From Coq Require Import List String Bool Arith Permutation.
 From PV Require Import Paths PathsProofs.
 Import ListNotations.
-Example C06_stub : wfb (Circ []) = true.
-Proof. vm_compute. reflexivity. Qed.
-Print Assumptions C06_stub.
+Open Scope string_scope.
+Open Scope list_scope.
+
+(* Full-strength statement: on EVERY well-formed circuit tree and EVERY pattern the recursion of get_nodes returns
+   the denotation of the path.  It is false of the code as it is (D31 and two lenient readings): *)
+Definition C06_full_statement : Prop := full_statement.
+Theorem C06_full_refuted : ~ C06_full_statement.
+Proof. exact full_statement_refuted. Qed.
+Print Assumptions C06_full_refuted.
+
+(* ... and true under the decidable guard `resolvable` (any depth, 'all' at any level, any var_identifier):
+   the result is the list of matching leaves, depth first in declaration order *)
+Theorem C06_get_nodes_partial : forall t v pat, wfb t = true -> resolvable t pat = true ->
+  get_nodes t v pat = Ok (path_denotation t v pat).
+Proof. exact get_nodes_correct. Qed.
+Print Assumptions C06_get_nodes_partial.
+
+Theorem C06_no_duplicates : forall t v pat, wfb t = true -> NoDup (path_denotation t v pat).
+Proof. exact path_denotation_NoDup. Qed.
+Print Assumptions C06_no_duplicates.
+
+Theorem C06_get_nodes_no_duplicates : forall t v pat l, wfb t = true -> resolvable t pat = true ->
+  get_nodes t v pat = Ok l -> NoDup l.
+Proof. exact get_nodes_NoDup. Qed.
+Print Assumptions C06_get_nodes_no_duplicates.
+
+(* what the denotation is: exactly the leaves whose address matches and that carry the variable *)
+Theorem C06_denotation_sound : forall t v pat q, In q (path_denotation t v pat) ->
+  exists nd, In (q, nd) (leaves t) /\ matches pat q = true /\ has_var v nd = true.
+Proof. exact path_denotation_sound. Qed.
+Print Assumptions C06_denotation_sound.
+Theorem C06_denotation_complete : forall t v pat q nd, In (q, nd) (leaves t) -> matches pat q = true ->
+  has_var v nd = true -> In q (path_denotation t v pat).
+Proof. exact path_denotation_complete. Qed.
+Print Assumptions C06_denotation_complete.
+
+(* declaration order (children reordered at any level) changes the column order only *)
+Theorem C06_order_invariant : forall t t' v pat, tperm t t' ->
+  Permutation (path_denotation t v pat) (path_denotation t' v pat).
+Proof. exact denotation_order_invariant. Qed.
+Print Assumptions C06_order_invariant.
+
+(* the exceptions outside the guard *)
+Theorem C06_get_nodes_keyerror : forall ch v p r rest, String.eqb p all = false -> ~ In p (map fst ch) ->
+  get_nodes (Circ ch) v (p :: r :: rest) = Err KeyError.
+Proof. exact get_nodes_keyerror. Qed.
+Print Assumptions C06_get_nodes_keyerror.
+Theorem C06_refuted_D31 : wfb two_branches = true /\
+  get_nodes two_branches (Some ox) ["all"; "c1"; "n0"] = Err KeyError /\
+  path_denotation two_branches (Some ox) ["all"; "c1"; "n0"] = [["a"; "c1"; "n0"]] /\
+  names_resolve two_branches ["all"; "c1"; "n0"] = false.
+Proof. exact refuted_D31. Qed.
+Print Assumptions C06_refuted_D31.
+Theorem C06_refuted_too_long : wfb flat3 = true /\
+  get_nodes flat3 (Some ox) ["B"; "zzz"] = Ok [["B"]] /\ path_denotation flat3 (Some ox) ["B"; "zzz"] = [] /\
+  not_too_long flat3 ["B"; "zzz"] = false.
+Proof. exact refuted_too_long. Qed.
+Print Assumptions C06_refuted_too_long.
+Theorem C06_refuted_too_short :
+  get_nodes two_branches None ["a"] = Ok [["a"]] /\ get_nodes two_branches (Some ox) ["a"] = Err IndexError /\
+  path_denotation two_branches None ["a"] = [] /\ not_too_short two_branches ["a"] = false.
+Proof. exact refuted_too_short. Qed.
+Print Assumptions C06_refuted_too_short.
+
+(* output stage: dict form resolves every key to the denotation of its path *)
+Theorem C06_positions_dict : forall t reqs, wfb t = true -> reqs_resolvable t reqs = true ->
+  positions_dict t reqs = Ok (flat_map (entries_of t) reqs).
+Proof. exact positions_dict_spec. Qed.
+Print Assumptions C06_positions_dict.
+Theorem C06_multi_label : forall (key : string) n o x,
+  key :: firstn (List.length (var_key n o x) - 2) (var_key n o x) ++ [last2 (var_key n o x)] = key :: n ++ [opvar o x].
+Proof. exact multi_label. Qed.
+Print Assumptions C06_multi_label.
+(* on a fresh template a variable is read from the vector of its representative at its own unit index ... *)
+Theorem C06_source_fresh : forall L v vec i, tsvi L = [] -> source_of L v = Ok (vec, i) ->
+  passoc v (vidx L) = Some i /\ passoc (relabel L v) (f2b L) = Some vec /\ exists sl, assoc vec (svi L) = Some sl.
+Proof. exact source_of_fresh. Qed.
+Print Assumptions C06_source_fresh.
+(* ... and slicing the vector out of the state row and indexing it reads state slot pos(var) *)
+Theorem C06_column_is_slot : forall (d : nat) L (row : list nat) v src k, source_of L v = Ok src -> pos L v = Some k ->
+  column_value d L row src = nth_error row k.
+Proof. exact (@column_value_slot nat). Qed.
+Print Assumptions C06_column_is_slot.
+
+(* refutations of the output stage (witnesses replayed on the real code: corpus/C06) *)
+Theorem C06_list_form_old_refuted :
+  run_columns flat3 L3 ListFormOld [("", (["B"], ox))] = Ok [(["A/op/x"], ("x", 0))] /\
+  run_columns flat3 L3 ListForm [("", (["B"], ox))] = Ok [(["B/op/x"], ("x", 1))] /\
+  spec_columns flat3 ListForm [("", (["B"], ox))] = [(["B/op/x"], ["B"; "op"; "x"])] /\
+  pos L3 ["B"; "op"; "x"] = Some 1.
+Proof. exact list_old_refuted. Qed.
+Print Assumptions C06_list_form_old_refuted.
+Theorem C06_plain_key_split_refuted :
+  run_columns flat3 L3 DictForm [("ab", (["B"], ox)); ("a", (["all"], ox))] =
+    Ok [(["a"; "b"], ("x", 1)); (["a"; "A"; "op/x"], ("x", 0)); (["a"; "B"; "op/x"], ("x", 1)); (["a"; "C"; "op/x"], ("x", 2))] /\
+  map fst (spec_columns flat3 DictForm [("ab", (["B"], ox)); ("a", (["all"], ox))]) =
+    [["ab"]; ["a"; "A"; "op/x"]; ["a"; "B"; "op/x"]; ["a"; "C"; "op/x"]] /\
+  mixed_labels_ok flat3 [("ab", (["B"], ox)); ("a", (["all"], ox))] = false.
+Proof. exact plain_key_split_refuted. Qed.
+Print Assumptions C06_plain_key_split_refuted.
+Theorem C06_overlap_refuted :
+  run_columns flat3 L3 DictForm [("a", (["all"], ox)); ("b", (["all"], ox))] = Err KeyError /\
+  List.length (spec_columns flat3 DictForm [("a", (["all"], ox)); ("b", (["all"], ox))]) = 6 /\
+  no_overlap flat3 [("a", (["all"], ox)); ("b", (["all"], ox))] = false.
+Proof. exact overlap_refuted. Qed.
+Print Assumptions C06_overlap_refuted.
+Theorem C06_stale_indices_refuted :
+  source_of (L_stale true) ["N1"; "op"; "x"] = Ok ("x", 4) /\ source_of (L_stale false) ["N1"; "op"; "x"] = Ok ("x", 1) /\
+  source_of (L_stale false) ["N4"; "op"; "x"] = Ok ("x", 4).
+Proof. exact stale_indices_refuted. Qed.
+Print Assumptions C06_stale_indices_refuted.
+
+Example C06_nonvacuous : wfb nv_tree = true /\ resolvable nv_tree ["all"; "A"] = true /\
+  get_nodes nv_tree (Some ox) ["all"; "A"] = Ok [["c1"; "A"]; ["c2"; "A"]] /\
+  get_nodes nv_tree (Some ox) ["all"] = Ok [["c1"; "A"]; ["c2"; "B"]; ["c2"; "A"]].
+Proof. exact nonvacuous. Qed.
+Print Assumptions C06_nonvacuous.
